@@ -26,3 +26,10 @@ func VP8FilterStrengths(level, sharpness int, useLFDelta bool, ref0, mode0 int,
 	}
 	return out
 }
+
+// VP8DoFilter is lossy.VerifDoFilter: the decoder's per-macroblock loop filter
+// doFilter(mbX, mbY) on copies of the three cache planes.
+func VP8DoFilter(filterType, limit, ilevel, hev int, inner bool, mbX, mbY, yStride, uvStride int,
+	y, u, v []byte) ([]byte, []byte, []byte) {
+	return lossy.VerifDoFilter(filterType, uint8(limit), uint8(ilevel), uint8(hev), inner, mbX, mbY, yStride, uvStride, y, u, v)
+}
